@@ -16,6 +16,7 @@ class FakeFS(object):
         os.makedirs(self.root, exist_ok=True)
         self.log = []
         self.fail_next = None   # (operation, substring of the destination): one-shot injected failure
+        self.fail_puts = None   # [substring of the destination, number of consecutive put calls that still fail]
 
     def _resolve(self, p):
         p = str(p)
@@ -38,6 +39,9 @@ class FakeFS(object):
 
     def put(self, file, contents, overwrite=False):
         self.log.append(("put", file))
+        if self.fail_puts and self.fail_puts[1] > 0 and self.fail_puts[0] in str(file):
+            self.fail_puts[1] -= 1
+            raise IOError(f"injected failure: put {file}")
         lp = self._resolve(file)
         if os.path.exists(lp) and not overwrite:
             raise FileExistsError(f"java.io.IOException: {file} already exists")
